@@ -69,11 +69,33 @@ class IndexTok:
         return IndexTok(None, term=z3.Const(f"index:{label}", IndexExpr))
 
 
+prepend = z3.Function("prepend", I, Shp, Shp)               # the shape (n,) + s
+at0 = z3.Function("at0", I, Idx, Idx)                        # position (k, i) of shape (n,) + s
+first0 = z3.Function("first0", Idx, I)                       # k of such a position
+rest0 = z3.Function("rest0", Idx, Idx)                       # i of such a position
+index_newaxis = z3.Const("index:None", IndexExpr)            # the index expression numpy.newaxis
+
+
+def stack_axioms(ctx):
+    """(n,) + s: positions are the pairs (k, i) with k < n and i in s; x[newaxis] has shape (1,) + x.shape and element (0, i) is x[i]"""
+    s = z3.Const(ctx.fresh("s"), Shp)
+    i, j = z3.Const(ctx.fresh("i"), Idx), z3.Const(ctx.fresh("j"), Idx)
+    n, k = z3.Int(ctx.fresh("n")), z3.Int(ctx.fresh("k"))
+    return [z3.ForAll([n, s, k, i], inshape(at0(k, i), prepend(n, s)) == z3.And(0 <= k, k < n, inshape(i, s)),
+                      patterns=[inshape(at0(k, i), prepend(n, s))]),
+            z3.ForAll([k, i], z3.And(first0(at0(k, i)) == k, rest0(at0(k, i)) == i), patterns=[at0(k, i)]),
+            z3.ForAll([n, s, j], z3.Implies(inshape(j, prepend(n, s)), z3.And(0 <= first0(j), first0(j) < n, inshape(rest0(j), s),
+                                                                             at0(first0(j), rest0(j)) == j)),
+                      patterns=[inshape(j, prepend(n, s))]),
+            z3.ForAll([s], ishape(s, index_newaxis) == prepend(1, s)),
+            z3.ForAll([s, i], imap(at0(0, i), s, index_newaxis) == i, patterns=[imap(at0(0, i), s, index_newaxis)])]
+
+
 def index_axioms(ctx):
     s = z3.Const(ctx.fresh("s"), Shp)
     j = z3.Const(ctx.fresh("j"), Idx)
     x = z3.Const(ctx.fresh("x"), IndexExpr)
-    return [z3.ForAll([s, j, x], z3.Implies(inshape(j, ishape(s, x)), inshape(imap(j, s, x), s)),
+    return stack_axioms(ctx) + [z3.ForAll([s, j, x], z3.Implies(inshape(j, ishape(s, x)), inshape(imap(j, s, x), s)),
                       patterns=[imap(j, s, x)])]
 
 
@@ -1037,6 +1059,13 @@ class NamesV:
                 idx = nlen(self.term) + idx
             ex.oblige(f"pre({ex.site('index')}).in_bounds", z3.And(0 <= idx, idx < nlen(self.term)), "index", node)
             return nat(self.term, idx)
+        if isinstance(idx, slice) and idx.start is None and idx.stop is None and idx.step == -1:
+            ctx = ex.ctx
+            nm = ctx.const("names_reversed", Names)
+            n = nlen(self.term)
+            ctx.assume(nlen(nm) == n)
+            ctx.assume(ctx.forall_range(0, n, lambda d: nat(nm, d) == nat(self.term, n - 1 - d)))
+            return NamesV(nm)
         if isinstance(idx, slice) and idx.start is None and idx.step is None and isinstance(idx.stop, int) and idx.stop >= 0:
             k = idx.stop
             ctx = ex.ctx
